@@ -610,6 +610,41 @@ impl Runner for R {
                 o.add("splits_swept", total.len() as u64 + 1);
                 format!("h {}", hsh)
             }
+            ["sweep", ver, hh, n, pre] => {
+                // every stream `pre ++ (n arbitrary bytes)`, read whole and byte by byte
+                let mut hdr = parse_hex(hh).unwrap();
+                let hl = hdr.len();
+                hdr.extend(parse_hex(pre).unwrap());
+                let n: u32 = n.parse().unwrap();
+                let count = 256u64.pow(n);
+                let mut hsh = FNV_OFFSET;
+                let mut total = hdr.clone();
+                total.resize(hdr.len() + n as usize, 0);
+                let ones = vec![1usize; total.len()];
+                for k in 0..count {
+                    for j in 0..n as usize {
+                        total[hdr.len() + j] = (k / 256u64.pow(n - 1 - j as u32)) as u8;
+                    }
+                    let w = read_all(&total, &[]);
+                    let b = read_all(&total, &ones);
+                    match (&w, &b) {
+                        (Ok(w), Ok(b)) => {
+                            if w.line != b.line {
+                                o.fail("C17/fragmentation-changes-output", format!("stream={} byte by byte `{}`, unfragmented `{}`", to_hex(&total[hl..]), clip(&b.line), clip(&w.line)));
+                            }
+                            oracle_structure(&total[hl..], has_ex_of(ver), w, o, &format!("(stream={})", to_hex(&total[hl..])));
+                        }
+                        (Err(p), _) | (_, Err(p)) => o.fail("C17/panic", format!("stream={} {}", to_hex(&total[hl..]), p)),
+                    }
+                    for r in [&w, &b] {
+                        let line = r.as_ref().map(|x| x.line.clone()).unwrap_or("panic".to_string());
+                        hsh = fnv_bytes(hsh, line.as_bytes());
+                        hsh = fnv_byte(hsh, 10);
+                    }
+                }
+                o.add("streams_swept", count);
+                format!("h {}", hsh)
+            }
             _ => "bad-op".to_string(),
         }
     }
@@ -1204,8 +1239,26 @@ impl Domain for D {
             emit(w, "run", ver, hdr, &s, "b");
             emit(w, "all2", ver, hdr, &s, "");
         }
+        // exhaustive: every stream of 0, 1 (and, thorough, 2) bytes, both format versions
+        for n in 0..=1 {
+            writeln!(w, "sweep 2 {} {} -", to_hex(&hdr2), n).unwrap();
+            writeln!(w, "sweep 1 {} {} -", to_hex(&hdr1), n).unwrap();
+        }
+        if thorough {
+            // all two-byte streams (split by first byte), and all three-byte streams that start
+            // with PLAYER_DIFF 0, TICK_SKIP or PLAYER_NEW
+            for p in 0..256u32 {
+                writeln!(w, "sweep 2 {} 1 {:02x}", to_hex(&hdr2), p).unwrap();
+                writeln!(w, "sweep 1 {} 1 {:02x}", to_hex(&hdr1), p).unwrap();
+            }
+            for p in [0x00u32, 0x41, 0x42] {
+                for q in 0..256u32 {
+                    writeln!(w, "sweep 2 {} 1 {:02x}{:02x}", to_hex(&hdr2), p, q).unwrap();
+                }
+            }
+        }
         // random server histories
-        let n_hist = if thorough { 1200 } else { 70 };
+        let n_hist = if thorough { 300 } else { 56 };
         for k in 0..n_hist {
             let ver = if rng.chance(1, 6) { 1 } else { 2 };
             let hv = if rng.chance(1, 5) { 1 + rng.below(2) as u32 } else { 0 };
@@ -1216,7 +1269,7 @@ impl Domain for D {
             let total = hdr.len() + s.len();
             emit(w, "run", ver, &hdr, &s, "w");
             emit(w, if total > 3000 { "hash" } else { "run" }, ver, &hdr, &s, "b");
-            if total <= (if thorough { 2500 } else { 900 }) {
+            if total <= (if thorough { 1500 } else { 800 }) {
                 emit(w, "all2", ver, &hdr, &s, "");
             } else {
                 for _ in 0..(if thorough { 60 } else { 12 }) {
